@@ -167,7 +167,7 @@ def derive(cls, term, leaf, depth=0):
         # parameters are opaque, so a value passed INTO the helper still does not make the result a class member
         if name in cls.prog.bodies and depth < 8:
             cb = cls.prog.bodies[name]
-            if not getattr(cb, "coroutine", False) and len(cb.blocks) <= 60:
+            if not cb.is_coroutine and len(cb.blocks) <= 60:
                 r = derive(cls, cls.closure_return(name), leaf, depth + 3)
                 return None if r is None else r + off
         return None
